@@ -71,7 +71,10 @@ pub enum SOp {
     /// delegator, target (0..N_DELEGATORS = a delegator, then third parties)
     SetWithdraw(u8, u8),
     Slash(u8, PSpec),
+    /// advance block time by whole seconds
     Advance(u64),
+    /// advance block time by an arbitrary number of nanoseconds
+    AdvanceNanos(u64),
     /// reward checkpoint that must not change anything: a 0 % slash, executed only while the
     /// validator has delegations and was never slashed by a positive fraction (used by the
     /// path-independence twin, never generated)
@@ -361,13 +364,14 @@ impl World {
     }
 
     /// accrue the linear law over dt seconds for every pair
-    fn accrue(&mut self, dt: u64) {
-        if dt == 0 {
+    fn accrue(&mut self, dt_nanos: u64) {
+        if dt_nanos == 0 {
             return;
         }
         let apr = d256(self.apr);
         let year = whole(YEAR as u128);
-        let t = whole(dt as u128);
+        // elapsed time in seconds with nanosecond resolution (exact in 18-decimal fixed point)
+        let t = Decimal256::from_ratio(Uint256::from(dt_nanos as u128), Uint256::from(1_000_000_000u128));
         for ((_, vi), p) in self.pairs.iter_mut() {
             let keep = Decimal256::one() - d256(self.commissions[*vi]);
             let lo = whole(p.lo) * apr * keep * t / year;
@@ -733,13 +737,17 @@ impl StakingCheck {
                         }
                     }
                 }
-                SOp::Advance(dt) => {
-                    let dt = *dt;
+                SOp::Advance(_) | SOp::AdvanceNanos(_) => {
+                    let (dt, dt_nanos) = match op {
+                        SOp::Advance(s) => (*s, *s * 1_000_000_000),
+                        SOp::AdvanceNanos(n) => (*n / 1_000_000_000, *n),
+                        _ => unreachable!(),
+                    };
                     let bal_before = w.snapshot_balances();
                     let app = &mut w.app;
                     let r = catch(|| {
                         app.update_block(|b| {
-                            b.time = b.time.plus_seconds(dt);
+                            b.time = b.time.plus_nanos(dt_nanos);
                             b.height += 1;
                         })
                     });
@@ -779,13 +787,13 @@ impl StakingCheck {
                     for (h, a) in expected {
                         *w.bal.entry(h).or_insert(0) += a;
                     }
-                    w.accrue(dt);
-                    if dt > 0 {
+                    w.accrue(dt_nanos);
+                    if dt_nanos > 0 {
                         stats.reward_intervals += 1;
                     }
                 }
             }
-            if !matches!(op, SOp::Checkpoint(_) | SOp::Advance(_)) {
+            if !matches!(op, SOp::Checkpoint(_) | SOp::Advance(_) | SOp::AdvanceNanos(_)) {
                 // accepted operations change storage, rejected ones do not (checked above)
                 stats.outcomes.push(scan(w.app.storage()) != before_scan);
             }
@@ -852,8 +860,8 @@ impl Check for StakingCheck {
             "C15" => Spec {
                 id: "C15",
                 level: "exploration",
-                rule: "generated staking histories (1-60 ops over 3 delegators, 1-3 validators with commissions from {0, 1%, 33.3..%, 100%, random}, apr with up to 18 decimals, non-round stakes, time split into block updates of 0 s to 10^7 s in whole seconds, interleaved withdrawals, withdraw-address changes, stake changes, slashes); at every step and for every pair with a positive delegation: withdrawn + shown <= upper accrual of stake x rate x (1-commission) x time / year + 1e-6 and > lower accrual - (withdrawals + 1) - 1e-6; each successful withdrawal pays exactly the reward shown immediately before to the current withdraw address, mints nothing else, resets the pending reward, leaves other pairs' pending rewards untouched; the same history re-run with extra reward checkpoints (split block updates, 0% slashes) gives per-pair withdrawn+shown within (withdrawals+1) tokens. Non-trivial: >=3 time intervals with a positive delegation, >=1 successful withdrawal; distinct = distinct serialised history",
-                assumptions: vec!["time advances in whole seconds (the crate measures reward time in whole seconds)", "stakes <= 10^8 tokens, rate <= 1000 %, total time <= 20 years: the crate multiplies reward x stake in 128-bit 18-decimal fixed point, which overflows (documented panic of Decimal) above about 3.4e20", "a withdrawal while nothing is pending may be refused"],
+                rule: "generated staking histories (1-60 ops over 3 delegators, 1-3 validators with commissions from {0, 1%, 33.3..%, 100%, random}, apr with up to 18 decimals, non-round stakes, time split into block updates of 0 s to 10^7 s, whole seconds and arbitrary nanosecond amounts, interleaved withdrawals, withdraw-address changes, stake changes, slashes); at every step and for every pair with a positive delegation: withdrawn + shown <= upper accrual of stake x rate x (1-commission) x time / year + 1e-6 and > lower accrual - (withdrawals + 1) - 1e-6; each successful withdrawal pays exactly the reward shown immediately before to the current withdraw address, mints nothing else, resets the pending reward, leaves other pairs' pending rewards untouched; the same history re-run with extra reward checkpoints (split block updates, 0% slashes) gives per-pair withdrawn+shown within (withdrawals+1) tokens. Non-trivial: >=3 time intervals with a positive delegation, >=1 successful withdrawal; distinct = distinct serialised history",
+                assumptions: vec!["block time advances by whole seconds or by arbitrary nanosecond amounts, never backwards", "stakes <= 10^8 tokens, rate <= 1000 %, total time <= 20 years: the crate multiplies reward x stake in 128-bit 18-decimal fixed point, which overflows (documented panic of Decimal) above about 3.4e20", "a withdrawal while nothing is pending may be refused"],
                 floor_quick: 150,
             },
             "C16" => Spec {
@@ -866,8 +874,8 @@ impl Check for StakingCheck {
             _ => Spec {
                 id: "C14",
                 level: "exploration",
-                rule: "generated staking histories (1-60 ops: delegate, undelegate, redelegate, withdraw, set-withdraw-address, slash, advance block by whole seconds incl. 0 / unbonding_time-1 / unbonding_time; amounts relative to balance or delegation: 1, half, all, all+1, zero, primes; foreign denomination; unknown validators; unbonding_time from {0, 1, 60, 10^6}); after every op all balances, the pool, supply, every Delegation/AllDelegations answer are compared with an integer reference; listed invalid ops must fail with root storage byte-identical; each unbonding is paid exactly (folded through floor(x(1-p)) per slash) by the first block update at or after its maturity and not before; panics are violations. Non-trivial: a partial undelegation, a slash while it is pending, a block update past its maturity and a further staking operation; distinct = distinct serialised history",
-                assumptions: vec!["block time is non-decreasing and advances in whole seconds", "after a validator was slashed a valid-looking undelegation may be refused (counted as tolerated, not flagged)", "stakes <= 10^8 tokens, rate <= 1000 %, total time <= 20 years (no overflow of 18-decimal fixed point, the statement's precondition)"],
+                rule: "generated staking histories (1-60 ops: delegate, undelegate, redelegate, withdraw, set-withdraw-address, slash, advance block (whole seconds incl. 0 / unbonding_time-1 / unbonding_time, or arbitrary nanoseconds); amounts relative to balance or delegation: 1, half, all, all+1, zero, primes; foreign denomination; unknown validators; unbonding_time from {0, 1, 60, 10^6}); after every op all balances, the pool, supply, every Delegation/AllDelegations answer are compared with an integer reference; listed invalid ops must fail with root storage byte-identical; each unbonding is paid exactly (folded through floor(x(1-p)) per slash) by the first block update at or after its maturity and not before; panics are violations. Non-trivial: a partial undelegation, a slash while it is pending, a block update past its maturity and a further staking operation; distinct = distinct serialised history",
+                assumptions: vec!["block time is non-decreasing (whole-second and arbitrary nanosecond advances)", "after a validator was slashed a valid-looking undelegation may be refused (counted as tolerated, not flagged)", "stakes <= 10^8 tokens, rate <= 1000 %, total time <= 20 years (no overflow of 18-decimal fixed point, the statement's precondition)"],
                 floor_quick: 100,
             },
         }
@@ -940,6 +948,11 @@ impl Check for StakingCheck {
                 3 => SOp::Withdraw(d, vi),
                 4 => SOp::SetWithdraw(d, g.below(N_DELEGATORS + N_THIRD) as u8),
                 5 => SOp::Slash(vi, gen_p(g, slash_heavy)),
+                _ if g.chance(1, 3) => SOp::AdvanceNanos(match g.weighted(&[3, 3, 2]) {
+                    0 => g.range(1, 3_000_000_000),
+                    1 => g.range(1, 100_000) * 1_000_000_000 + g.range(0, 999_999_999),
+                    _ => g.range(1, 999_999_999),
+                }),
                 _ => SOp::Advance(match g.weighted(&[3, 2, 2, 2, 2, 1, 1]) {
                     0 => g.range(1, 100),
                     1 => unbonding_time,
